@@ -32,7 +32,9 @@ FLAGGED = b"czqv_sink\nf\n(K\x01tR."
 # rated LIKELY_SAFE by the static check (a bare reference to a stdlib global) but outside the ML allowlist: while the safe
 # ML environment is active every entry point must refuse it, whatever else is armed on top
 ML_ONLY = b"cdatetime\ndate\n."
-OPS = ["arm", "activate", "activate+adds", "remove", "enter", "exit", "exit-exc", "probe-load", "probe-loads"]
+OPS = ["arm", "activate", "activate+adds", "remove", "enter", "exit", "exit-exc", "probe-load", "probe-loads", "enter-precreated"]
+# "enter-precreated": enter a context manager object that was created at the very start of the history (before anything
+# was armed): what matters is the protection in force when the block is ENTERED
 HMAX = [4]
 
 
@@ -43,12 +45,12 @@ class Boom(Exception):
 def make_history(first):
     def lem(h: List[int]) -> bool:
         """
-        pre: len(h) <= 5 and all(0 <= x < 9 for x in h)
+        pre: len(h) <= 5 and all(0 <= x < 10 for x in h)
         post: _
         """
         if len(h) + 1 > HMAX[0]:
             return True
-        ops = [first] + [pin(x, 0, 8) for x in h]
+        ops = [first] + [pin(x, 0, 9) for x in h]
         with native():
             return _run(ops)
 
@@ -76,6 +78,7 @@ def _run(ops):
     G = False           # global check armed
     M = False           # ML environment active
     stack = []          # open contexts: (manager, binding of pickle.load at entry, other three at entry)
+    precreated = fickling.check_safety()
     ok = True
     nontrivial = False
     try:
@@ -100,11 +103,11 @@ def _run(ops):
                 G = M = False
                 tainted = False
                 ok = ok and bindings() == ORIG and all(a is b for a, b in zip(bindings(), ORIG))
-            elif name == "enter":
+            elif name in ("enter", "enter-precreated"):
                 if len(stack) >= 3:
                     return True
                 before = bindings()
-                cm = fickling.check_safety()
+                cm = fickling.check_safety() if name == "enter" else precreated
                 cm.__enter__()
                 stack.append((cm, before))
                 ok = ok and bindings()[1:] == before[1:]
@@ -168,10 +171,10 @@ def lemmas(tier):
     HMAX[0] = 4 if q else 6
     L = []
     for first in range(len(OPS)):
-        if OPS[first] in ("exit", "exit-exc"):
-            continue      # a history cannot start by leaving a context
+        if OPS[first] in ("exit", "exit-exc", "enter-precreated"):
+            continue      # a history cannot start by leaving a context; a pre-created manager entered first is a plain enter
         fn = make_history(first)
-        L.append(Lemma(fn.__name__, fn, timeout=300 if q else 3000, dry=[{"h": [4, 7, 5]}, {"h": [4, 4, 6]}, {"h": [8, 3, 7]}, {"h": [1, 5, 3]}, {"h": [4, 2, 6]}],
+        L.append(Lemma(fn.__name__, fn, timeout=300 if q else 3000, dry=[{"h": [4, 7, 5]}, {"h": [4, 4, 6]}, {"h": [8, 3, 7]}, {"h": [1, 5, 3]}, {"h": [4, 2, 6]}, {"h": [9, 5, 7]}, {"h": [9, 9, 5]}],
                        doc={"F": ["histories starting with %r, length <= %d over %s" % (OPS[first], HMAX[0], OPS)],
                             "bound": "length <= %d, context depth <= 3, then one with-statement round trip (exit by exception) from the final state" % HMAX[0]}))
     return L
